@@ -267,6 +267,27 @@ def check_userff(case):
                 if got != exp:
                     kind = "invented" if exp == (None, None) else ("missing" if got == (None, None) else "value")
                     res.bad(f"C01:userff:{kind}", f"{canon} {a}: code {got} != truth {exp}")
+        # history: the SAME parameter file with a second, empty names file - nothing of the first
+        # pair's renaming may survive (state kept between loads would show up as invented entries)
+        empty = "<?xml version='1.0'?>\n<ff>\n</ff>\n"
+        np2 = os.path.join(d, "v.names")
+        with open(np2, "w") as fh:
+            fh.write(empty)
+        try:
+            ff2 = forcefield.Forcefield(None, pipeline.definition(), dp, np2)
+            model2 = ffmodel.resolve_text(dat, empty, tuple(ffmodel.universe()))
+            for rd in case["residues"]:
+                canon = rd["canon"]
+                for a in _res_atoms(canon):
+                    got = ff2.get_params(canon, a)
+                    m = model2.get(canon, {}).get(a)
+                    exp = (m[0], m[1]) if m else (None, None)
+                    if got != exp:
+                        res.bad("C01:userff:names-leak-between-loads", f"{canon} {a}: second load of the same DAT with an empty "
+                                f"names file gives {got}, documented resolution {exp}")  # fmt: skip
+                        break
+        except Exception as e:  # noqa: BLE001
+            res.bad(f"C01:userff:load2:{type(e).__name__}", f"second load rejected: {e!r}")
     finally:
         shutil.rmtree(d, ignore_errors=True)
     res.nontrivial = bool(fired)
@@ -336,7 +357,9 @@ def check_e2e(case):
                 special = True
             ffname = getattr(obj, "ffname", None)
             if ffname != state:
-                res.label("state-differs")  # judged by C02/C06; use the code's state for the lookup
+                # parameters of a different state than the residue's final one are borrowed parameters
+                res.bad("C01:e2e:wrong-state", f"{ff}: residue {g} ({desc['chains'][g[1]]['seq'][g[2]]}) is parameterised as "
+                        f"{ffname!r}, its final state is {state!r}")  # fmt: skip
                 state = ffname
         tab = model.get(state, {})
         for name, a in entry["atoms"].items():
